@@ -466,6 +466,15 @@ CORPUS["C05"] = [
     ("cfg mfs=100 sync=none frag=1/1 dead=1099511627776 small=60 cache=256 pool=1", [b"k"],
      [("put", b"k", b"x" * 100, "78*100"), ("del", b"k"), ("merge",), ("reopen",), ("get", b"k")]),
 ]
+# the wall clock is stepped back (or stands still) between two writes of one key; then a pass that merges only the newer file,
+# and a restart: the older, un-merged file must not win because its entry carries the later (or the same) timestamp
+for _c, _v1 in (("-3600000", b"x" * 100), ("freeze", b"x" * 100), ("-1000", b"y" * 100)):
+    _h = ("cfg mfs=100 sync=none frag=1/1 dead=1099511627776 small=60 cache=256 pool=1", [b"k"],
+          ([("clock", "freeze")] if _c == "freeze" else []) + [("put", b"k", _v1, f"{_v1[0]:02x}*100")] + ([] if _c == "freeze" else [("clock", _c)]) +
+          [P(b"k", b"v2"), ("merge",), ("get", b"k"), ("reopen",), ("get", b"k"), ("reopen",), ("get", b"k")])
+    CORPUS["C05"].append(_h)
+    CORPUS["C02"].append(_h)
+    CORPUS.setdefault("C12", []).append(_h)
 CORPUS["C19"] = [CORPUS["C02"][0]]
 CORPUS["C01"] = [("cfg mfs=0 sync=none frag=0/1 dead=0 small=1099511627776 cache=0 pool=0", [b"k", b""],
                   [P(b"k", b"v1"), P(b"", b""), ("merge",), ("get", b"k"), ("get", b""), ("del", b""), ("merge",), ("get", b""), ("del", b"")])]
